@@ -179,6 +179,21 @@ def step (j : Json) : Json :=
     match uuidDeser (getStr j "s").toList with
     | .ok u => Json.mkObj [("ok", intToJson (u : Nat))]
     | .error e => errToJson e
+  | "complex_str" =>
+    let partOf (pj : Json) : Part :=
+      let neg := match pj.getObjVal? "neg" with
+        | .ok (.bool b) => b
+        | _ => false
+      let tok : Tok := match getStr pj "t" with
+        | "inf" => .inf
+        | "nan" => .nan
+        | _ =>
+          let ex : Option (Bool × List Char) := match pj.getObjVal? "ex" with
+            | .ok (.arr #[.bool n, .str ds]) => some (n, ds.toList)
+            | _ => none
+          .dec (getStr pj "ip").toList (getStr pj "fp").toList ex
+      ⟨neg, tok⟩
+    Json.mkObj [("s", .str (String.ofList (complexStr (partOf (j.getObjValD "re")) (partOf (j.getObjValD "im")))))]
   | "complex_parse" =>
     let partJ (p : Part) : Json := .str (String.ofList ((if p.neg then ['-'] else []) ++
       (match p.tok with
